@@ -189,12 +189,21 @@ func checkC11(ctx *pbt.Ctx, c c11Case) error {
 	var q bq.Query
 	q.From, q.Clauses = c.From, c.Clauses
 	usedOut := map[string]bool{}
+	shadow := false
 	var keyCols, keyIn []string
 	for i, ki := range c.Keys {
 		b := all[ki%len(all)]
 		p := bq.Proj{Binding: b}
 		if c.KeyAlias[i] {
 			p.Alias = fmt.Sprintf("?k%d", i)
+			// sometimes the alias is the name of another pattern binding (one that an aggregate
+			// reads): the output column shadows it, the aggregate still reads the binding
+			if len(c.Aggs) > 0 && len(all) > 1 && (c.Keys[i]+len(c.Aggs))%3 == 0 {
+				if other := all[c.Aggs[0].Idx%len(all)]; other != b && !usedOut[other] {
+					p.Alias = other
+					shadow = true
+				}
+			}
 		}
 		if usedOut[p.OutName()] {
 			continue
@@ -366,6 +375,9 @@ func checkC11(ctx *pbt.Ctx, c c11Case) error {
 	}
 	if mixed {
 		ctx.Label("mixed-kind-key")
+	}
+	if shadow {
+		ctx.Label("key-alias-shadows-a-binding")
 	}
 	for _, a := range aggs {
 		ctx.Label("agg:" + a.op)
